@@ -35,10 +35,12 @@ CONSTANTS
     Events,       \* log events (records, see EventOK)
     MaxTokens,
     Exchanges,    \* HTTP exchanges through the proxy (records, see "the exchange")
-    XFormats      \* the formats (token sequences) exchanges are logged with
+    XFormats,     \* the formats (token sequences) exchanges are logged with
+    MaxServes     \* how many exchanges one proxy + logger serves in a history
 
-VARIABLES fmt, pc, ev, xch, out
-vars == <<fmt, pc, ev, xch, out>>
+VARIABLES fmt, pc, ev, xch, out,
+          served  \* the exchanges this proxy + logger completed before the current one
+vars == <<fmt, pc, ev, xch, out, served>>
 
 -----------------------------------------------------------------------------
 \* decimal, hexadecimal
@@ -251,32 +253,43 @@ Prescribed(x, f) == /\ ~Contacted(x) => \A i \in DOMAIN f : ~UpstreamField(f[i])
 -----------------------------------------------------------------------------
 \* the machine:  build a format -> Parse -> (Reject | Ready) -> Log(event) | Serve(exchange) -> Written
 None == "-"
-Init == fmt \in {<<>>} \cup XFormats /\ pc = "build" /\ ev = 0 /\ xch = None /\ out = <<>>
+Init == fmt \in {<<>>} \cup XFormats /\ pc = "build" /\ ev = 0 /\ xch = None /\ out = <<>> /\ served = <<>>
 
 Extend(t) == /\ pc = "build" /\ Len(fmt) < MaxTokens
              /\ Len(fmt) >= 2 => (t \in DeepTokens /\ \A i \in DOMAIN fmt : fmt[i] \in DeepTokens)
              /\ IF fmt = <<>> THEN TRUE ELSE Joinable(fmt[Len(fmt)], t)
              /\ fmt' = Append(fmt, t)
-             /\ UNCHANGED <<pc, ev, xch, out>>
+             /\ UNCHANGED <<pc, ev, xch, out, served>>
 Parse == /\ pc = "build"
          /\ pc' = IF Accepts(fmt) THEN "ready" ELSE "rejected"
-         /\ UNCHANGED <<fmt, ev, xch, out>>
+         /\ UNCHANGED <<fmt, ev, xch, out, served>>
 \* out: one set of admissible renderings per token, in order, and the line terminator
 Log(i) == /\ pc = "ready"
           /\ ev' = i
           /\ out' = [k \in DOMAIN fmt |-> PieceAlts(fmt[k], Events[i])] \o << {"\n"} >>
           /\ pc' = "written"
-          /\ UNCHANGED <<fmt, xch>>
+          /\ UNCHANGED <<fmt, xch, served>>
 \* an exchange through the proxy completes: its event is constructed and logged
 Serve(x) == /\ pc = "ready" /\ fmt \in XFormats /\ Prescribed(x, fmt)
             /\ xch' = x.id
             /\ out' = [k \in DOMAIN fmt |-> PieceAlts(fmt[k], EventOf(x))] \o << {"\n"} >>
             /\ pc' = "written"
-            /\ UNCHANGED <<fmt, ev>>
+            /\ UNCHANGED <<fmt, ev, served>>
+\* the same proxy and logger serve the next exchange: the line written for it is the line of THAT
+\* exchange - nothing of the exchanges served before shows in it.  Where the statement prescribes
+\* no value (the upstream fields of an exchange that contacts no upstream) the rendering still is
+\* a function of the exchange alone: what a proxy that has served nothing else writes.
+OutOf(f, x) == [k \in DOMAIN f |-> PieceAlts(f[k], EventOf(x))] \o << {"\n"} >>
+ServeAgain(x) == /\ pc = "written" /\ xch # None /\ Len(served) < MaxServes - 1 /\ Prescribed(x, fmt)
+                 /\ served' = Append(served, xch)
+                 /\ xch' = x.id
+                 /\ out' = OutOf(fmt, x)
+                 /\ UNCHANGED <<fmt, pc, ev>>
 Next == \/ \E t \in Tokens : Extend(t)
         \/ Parse
         \/ \E i \in DOMAIN Events : Log(i)
         \/ \E x \in Exchanges : Serve(x)
+        \/ \E x \in Exchanges : ServeAgain(x)
 Spec == Init /\ [][Next]_vars
 
 -----------------------------------------------------------------------------
@@ -290,6 +303,9 @@ OneLine == pc = "written" =>
               /\ out[Len(out)] = {"\n"}
               /\ \A k \in DOMAIN fmt : /\ out[k] # {} /\ "\n" \notin out[k]
                                        /\ Literal(fmt[k]) => out[k] = {fmt[k].v}
+\* the line of an exchange does not depend on what was served before
+LineIndependent == (pc = "written" /\ xch # None) =>
+                      \E x \in Exchanges : x.id = xch /\ out = OutOf(fmt, x)
 \* the event of an exchange reports what the client received
 EventFaithful == \A x \in Exchanges :
                     LET cv == ClientView(x) e == EventOf(x) IN
